@@ -336,6 +336,12 @@ fn signed_case() -> BoxedStrategy<Case> {
                 4 => {
                     payload.insert("exp".into(), junk.clone());
                 }
+                10 => {
+                    // instants at the edges of what time arithmetic can take
+                    let v = [json!(0), json!(1), json!(29), json!(59), json!(60), json!(-1), json!(u64::MAX), json!(i64::MAX), json!(1e19), json!(0.5), json!(4102444800u64)][m.pick(11)].clone();
+                    let k = ["exp", "nbf", "iat"][m.pick(3)];
+                    payload.insert(k.into(), v);
+                }
                 5 => {
                     payload.insert("_sd".into(), junk.clone());
                 }
@@ -372,6 +378,8 @@ fn signed_case() -> BoxedStrategy<Case> {
                     let mut p = json!({"nonce": nonce.clone().unwrap_or_default(), "aud": aud.clone().unwrap_or_default(), "iat": 1700000000, "sd_hash": sd_hash_of(&jwt_for_hash, &disclosures)});
                     // the KB-JWT's own time claims: any JSON number (negative, fractional, huge), or junk
                     match m.pick(12) {
+                        7 => p["iat"] = json!(std::time::SystemTime::now().duration_since(std::time::UNIX_EPOCH).unwrap().as_secs() + 30),
+                        8 => p["iat"] = json!(std::time::SystemTime::now().duration_since(std::time::UNIX_EPOCH).unwrap().as_secs() as f64 + 59.5),
                         0 => p["iat"] = json!(-1),
                         1 => p["iat"] = json!(-0.5),
                         2 => p["iat"] = json!(1e19),
